@@ -9,6 +9,7 @@
 //! Each module exposes
 //!   pub fn generate(prop: &str, out: &mut Out, thorough: bool, seed: u64) -> bool   (true if it serves `prop`)
 //!   pub fn replay(toks: &[&str], out: &mut Out) -> bool                             (true if it knows the op)
+mod cfgcorpus;
 mod cls;
 mod dec;
 mod enc;
@@ -36,6 +37,7 @@ const MODULES: &[(GenFn, ReplayFn)] = &[
     (enc::generate, enc::replay),
     (oneshot::generate, oneshot::replay),
     (meta::generate, meta::replay),
+    (cfgcorpus::generate, cfgcorpus::replay),
 ];
 
 fn main() {
@@ -53,6 +55,8 @@ fn main() {
             let thorough = args[3] == "thorough";
             let seed: u64 = args[4].parse().unwrap_or(0);
             let mut served = false;
+            // operation lines are streamed to the file (see `Out::sink`)
+            out.sink = Some(std::io::BufWriter::new(std::fs::File::create(&args[5]).unwrap()));
             for (g, _) in MODULES {
                 served |= g(prop, &mut out, thorough, seed);
             }
@@ -60,10 +64,11 @@ fn main() {
                 eprintln!("unknown property {}", prop);
                 std::process::exit(2);
             }
-            let mut f = std::io::BufWriter::new(std::fs::File::create(&args[5]).unwrap());
+            let mut f = out.sink.take().unwrap();
             for l in &out.ops {
                 writeln!(f, "{}", l).unwrap();
             }
+            f.flush().unwrap();
         }
         "replay" => {
             let text = std::fs::read_to_string(&args[2]).unwrap();
@@ -98,7 +103,7 @@ fn main() {
     }
     println!(
         "HARNESS-STAT ops={} oracle_evals={} oracle_fails={}",
-        out.ops.len(),
+        out.n_ops,
         out.oracle_evals,
         out.oracle_fail.len()
     );
